@@ -288,6 +288,8 @@ fn structural_cases(text: &str, out: &mut Vec<Case>) {
             // raw '<' in an attribute value
             push("lt-in-attribute-value", splice(text, *vs, 0, "<"), Expect::Reject);
             push("bare-amp-in-attribute-value", splice(text, *vs, 0, "& "), Expect::Reject);
+            push("bare-amp-after-lone-cr-in-attribute-value", splice(text, *vs, 0, "\r& "), Expect::Reject);
+            push("bad-reference-after-lone-cr-in-attribute-value", splice(text, *vs, 0, "\r&#0;"), Expect::Reject);
             for r in ["&#0;", "&#xFFFE;", "&#xD800;", "&#x110000;", "&#1;", "&bogus;", "&#x100000041;", "&#4294967361;", "&#99999999999999999999;"] {
                 if !aname.starts_with("xmlns") {
                     push("bad-reference-in-attribute", splice(text, *vs, 0, r), Expect::Reject);
@@ -339,6 +341,11 @@ fn structural_cases(text: &str, out: &mut Vec<Case>) {
             push("default-namespace-is-xmlns-namespace", splice(text, t.name.1, 0, " xmlns=\"http://www.w3.org/2000/xmlns/\""), Expect::Any);
         }
         push("prefixed-xmlns-attribute", splice(text, t.name.1, 0, " xmlns:zy=\"urn:zy\" zy:xmlns=\"v\""), Expect::Accept);
+        if !text[t.start..t.end].contains("xmlns:xml=") {
+            push("xml-prefix-declared-explicitly", splice(text, t.name.1, 0, " xmlns:xml=\"http://www.w3.org/XML/1998/namespace\""), Expect::Accept);
+            push("xml-prefix-declared-twice", splice(text, t.name.1, 0, " xmlns:xml=\"http://www.w3.org/XML/1998/namespace\" xmlns:xml=\"http://www.w3.org/XML/1998/namespace\""), Expect::Reject);
+            push("xml-prefix-declared-twice", splice(text, t.name.1, 0, " xmlns:xml=\"urn:zz\" xmlns:xml=\"http://www.w3.org/XML/1998/&#110;amespace\""), Expect::Reject);
+        }
         push("attribute-without-value", splice(text, t.name.1, 0, " novalue"), Expect::Reject);
         push("unquoted-attribute", splice(text, t.name.1, 0, " a1=v"), Expect::Reject);
         push("unbound-prefix-attribute", splice(text, t.name.1, 0, " zu:a=\"1\""), Expect::Reject);
@@ -416,6 +423,9 @@ fn structural_cases(text: &str, out: &mut Vec<Case>) {
             }
             for (r, k) in [("\r", "cr"), ("\r\n", "crlf"), ("\r\r\n", "crcrlf"), ("a]]]&gt;b", "brackets")] {
                 push(&format!("literal-{}-in-content", k), splice(text, pos, 0, r), Expect::Accept);
+            }
+            for r in ["\r& ", "\r&nosuch;", "\r&#0;", "\r\r&", "x\r&#xFFFF;"] {
+                push("bad-reference-after-lone-cr", splice(text, pos, 0, r), Expect::Reject);
             }
             push("cdata-end-in-content", splice(text, pos, 0, "]]>"), Expect::Reject);
             push("empty-cdata-in-content", splice(text, pos, 0, "<![CDATA[]]>"), Expect::Accept);
@@ -702,7 +712,10 @@ fn judge(st: &mut Store, case: &Case, entry: Entry, stats: &mut Stats) -> Result
             match again {
                 Ok(Ok(r2)) => {
                     let c2 = canon_of(&st.x, r2).map_err(|e| v("unsound-accept", e.msg))?;
-                    if c2 != canon {
+                    // (an explicit declaration of the built-in pair xmlns:xml=... is legal, is kept as a
+                    // namespace node, and is never written: it is not there after the round trip)
+                    let builtin = "#xml=\"http://www.w3.org/XML/1998/namespace\",";
+                    if c2.replace(builtin, "") != canon.replace(builtin, "") {
                         return Err(v(
                             "unsound-accept",
                             format!("{} was accepted as {} but its serialisation {:?} reparses as {}", what, canon, text, c2),
